@@ -2874,6 +2874,11 @@ class Mailbox:
         Creates a mailbox on disk that does not already exist and
         instantiates a Mailbox object for it.
         """
+        # A leading `/` is our namespace prefix. It is not part of the folder's
+        # path (joining it on to the mail dir would yield an absolute path.)
+        #
+        name = name[1:] if name.startswith("/") else name
+
         # You can not create 'INBOX' nor, because of MH rules, create a mailbox
         # that is just the digits 0-9.
         #
@@ -2976,6 +2981,10 @@ class Mailbox:
         - `name`: The name of the mailbox to delete
         - `server`: The user server object
         """
+        # A leading `/` is our namespace prefix. It is not part of the folder's
+        # path (joining it on to the mail dir would yield an absolute path.)
+        #
+        name = name[1:] if name.startswith("/") else name
         if name == "inbox":
             raise InvalidMailbox("You are not allowed to delete the inbox")
 
@@ -3102,6 +3111,12 @@ class Mailbox:
         - `new_name`: the new name of the mailbox
         - `server`: the user server object
         """
+        # A leading `/` is our namespace prefix. It is not part of the folder's
+        # path (joining it on to the mail dir would yield an absolute path.)
+        #
+        old_name = old_name[1:] if old_name.startswith("/") else old_name
+        new_name = new_name[1:] if new_name.startswith("/") else new_name
+
         mbox = await server.get_mailbox(old_name)
         # The mailbox we are moving to must not exist.
         #
